@@ -290,7 +290,48 @@ fn special_tags() -> Vec<Tag> {
         b"loca", b"glyf", b"kern", b"name", b"post", b"gasp", b"PCLT", b"CFF ", b"DSIG", b"GSUB", b"GPOS", b"CFF2",
         b"heac", b"heae", b"DSIH",
     ];
-    names.iter().map(|n| Tag::new(n)).collect()
+    let mut v: Vec<Tag> = names.iter().map(|n| Tag::new(n)).collect();
+    // every 4-byte tag literal the builder / reader sources mention is a special tag as well: a tag
+    // that the code starts to treat specially enters the generator's alphabet on the same run
+    for t in source_tag_literals() {
+        if !v.contains(&t) {
+            v.push(t);
+        }
+    }
+    v
+}
+
+/// `b"xxxx"` literals (and `Tag::new(b"xxxx")`) in the sources of FontBuilder / FontRef, located through
+/// the harness' own path dependency on write-fonts (so a scratch copy built against a patched
+/// worktree scans that worktree).
+fn source_tag_literals() -> Vec<Tag> {
+    let manifest = include_str!(concat!(env!("CARGO_MANIFEST_DIR"), "/Cargo.toml"));
+    let root = manifest
+        .lines()
+        .find(|l| l.trim_start().starts_with("write-fonts"))
+        .and_then(|l| l.split("path = \"").nth(1))
+        .and_then(|r| r.split('"').next())
+        .and_then(|p| p.strip_suffix("/write-fonts").or(Some(p)))
+        .unwrap_or("/repo")
+        .to_string();
+    let mut out: Vec<Tag> = vec![];
+    for rel in ["write-fonts/src/font_builder.rs", "read-fonts/src/lib.rs", "read-fonts/src/table_provider.rs", "read-fonts/src/tables.rs"] {
+        let Ok(src) = std::fs::read(format!("{root}/{rel}")) else { continue };
+        let mut i = 0;
+        while i + 7 <= src.len() {
+            if src[i] == b'b' && src[i + 1] == b'"' && src[i + 6] == b'"' && src[i + 2..i + 6].iter().all(|c| (0x20..0x7F).contains(c) && *c != b'"' && *c != b'\\') {
+                let t = Tag::from_be_bytes([src[i + 2], src[i + 3], src[i + 4], src[i + 5]]);
+                if !out.contains(&t) {
+                    out.push(t);
+                }
+                i += 7;
+            } else {
+                i += 1;
+            }
+        }
+    }
+    out.sort();
+    out
 }
 
 fn gen_tag(rng: &mut Rng, specials: &[Tag]) -> Tag {
